@@ -86,3 +86,41 @@ def memmap_decode(buf, dtype='uint8', mode='r+', offset=0, shape=None, order='C'
     r = ndarray._from_flat(elems, shape, native)
     r._vf_big = big
     return r
+
+
+def fromfile_decode(file, dtype=float, count=-1, sep='', offset=0):
+    """Model of np.fromfile(file, dtype, count) in binary mode on a model file object: reads
+    min(count, whole items available) items from the current position (+offset), silently
+    returning fewer at end of file (NumPy's contract), as a 1-D array; advances the position."""
+    if sep != '' or not hasattr(file, '_vf_bytes') or not hasattr(file, 'tell'):
+        raise ModelGap('fromfile on a real file object / text mode')
+    big = False
+    if isinstance(dtype, str):
+        big = dtype.startswith('>')
+    dt = _dtype_cls(dtype)
+    if not isinstance(dtype, str):
+        big = dt.byteorder == '>'
+    isz = dt.itemsize
+    start = file.tell() + offset
+    flen = file._vf_len
+    a = flen - start
+    if count is None or count < 0:
+        count = max(0, (len(file._vf_bytes) - start)) // isz
+    count = int(count)
+    if a >= count * isz:
+        n = count
+    elif a < isz:
+        n = 0
+    else:
+        n = ch.pick(a // isz, 1, count)
+    import operator
+    start = operator.index(start)
+    if ch.var_of(start) is not None:
+        start = ch.realize(start)
+    data = file._vf_bytes
+    elems = [_decode(data[start + k * isz: start + (k + 1) * isz], dt, big) for k in range(n)]
+    native = _dtype_cls(dt.kind + str(dt.itemsize))
+    r = ndarray._from_flat(elems, (n,), native)
+    r._vf_big = big
+    file.seek(start + n * isz)
+    return r
